@@ -616,6 +616,11 @@ class C11H(Checker):
         if k == "e_add_config":
             if err[0] is None:
                 self.added = True
+                if op.get("cfg", {}).get("with_leakage") and getattr(self, "leak", False) is False:
+                    # merging a leakage configuration changes the dimension too
+                    self.leak = True
+                    self.init = None
+                    ctx.probe("history_dimension_change")
             return
         if getattr(self, "unknown_cfg", False):
             return
